@@ -235,6 +235,9 @@ def run(ctx):
     from .. import cmdfail
     if cmdfail.run(ctx, quick):
         found = True
+    from .. import c09errapi                       # (round 9 covgap) sf_perror / sf_error_str / sf_write_sync: Sf.ErrApi correspondence, purity, sync twins
+    if c09errapi.run(ctx, quick, rows):
+        found = True
     corr = [x for x in fa if x.kind == "corr"]
     if corr and not found:
         x = corr[0]
